@@ -3,6 +3,7 @@ package main
 // LP – processor line/keep contract.
 
 import (
+	"go/constant"
 	"fmt"
 	"go/types"
 	"sort"
@@ -666,6 +667,11 @@ func ruleLPDrop(r *Run) {
 				}
 			}
 			bad := unguardedUses(L, K, call)
+			if len(bad) > 0 && pathGuardedUses(fn, call, L, K) {
+				// second derivation: on every path each use of the line happens where this call kept the record
+				o.OK("on every path the line result is used only where this call's keep result is true")
+				continue
+			}
 			if len(bad) == 0 {
 				o.OK("every use of the line result is paired with or guarded by the keep result")
 				continue
@@ -790,4 +796,77 @@ func unguardedUses(L, K ssa.Value, call *ssa.Call) []ssa.Instruction {
 	}
 	visit(L)
 	return bad
+}
+
+// pathGuardedUses decides LP-DROP on paths: wherever the line result L of the call is used on a
+// path through fn (stored, passed on, or returned), the keep result K of the same call is true on
+// that path - or L is returned together with K itself. It resolves values that reach the use
+// through phis (line, keep := a(); if keep { line, keep = b() }; if !keep { return }; use(line)).
+func pathGuardedUses(fn *ssa.Function, call *ssa.Call, L, K ssa.Value) bool {
+	if L == nil || K == nil {
+		return false
+	}
+	w := &feWalker{Fn: fn, MaxPath: 20000}
+	ends := w.Run()
+	if w.Aborted || len(ends) == 0 {
+		return false
+	}
+	for _, e := range ends {
+		kTrue, kKnown := false, false
+		for _, f := range e.State.free {
+			f = normFact(f)
+			if f.Cond == K {
+				kTrue, kKnown = f.Truth, true
+			}
+		}
+		callSeq := -1
+		for _, c := range e.State.calls {
+			if c.Call == ssa.CallInstruction(call) {
+				callSeq = c.Seq
+			}
+		}
+		if callSeq < 0 {
+			continue
+		}
+		used := false
+		for _, st := range e.State.stores {
+			if st.Seq > callSeq && (st.Val.V == L || st.Store.Val == L) {
+				used = true
+			}
+		}
+		for _, c := range e.State.calls {
+			if c.Seq <= callSeq {
+				continue
+			}
+			for _, a := range c.Args {
+				if a.V == L {
+					used = true
+				}
+			}
+		}
+		retPaired := false
+		if ret, ok := e.Term.(*ssa.Return); ok {
+			for i, res := range e.Results {
+				if res.V == L || (i < len(ret.Results) && ret.Results[i] == L) {
+					// returned: fine when the keep result returned with it is K itself or known false/true consistently
+					paired := false
+					for j, r2 := range e.Results {
+						if j != i && (r2.V == K || (r2.Known && kKnown && constant.BoolVal(r2.C) == kTrue)) {
+							paired = true
+						}
+					}
+					if paired {
+						retPaired = true
+					} else {
+						used = true
+					}
+				}
+			}
+		}
+		_ = retPaired
+		if used && !(kKnown && kTrue) {
+			return false
+		}
+	}
+	return true
 }
